@@ -122,14 +122,16 @@ def check (c):
     rng.shuffle (rest)
     pairs += rest [: budget - len (pairs)]
     worst  = 0.0
+    refs   = []
     ninc   = 0
     kinds  = set ()
     for (i, j) in pairs:
-        v, s, ok = zref.zref_entry (ref [i], ref [j], m.w, m.srm, m.media is not None)
+        v, s, ok = zref.zref_entry (ref [i], ref [j], 2 * np.pi * m.f / gen.C_MHZ, 1e-4 * gen.C_MHZ / m.f, m.media is not None)
         if not ok:
             ninc += 1
             continue
         dev = abs (Z [i, j] - v) / s
+        refs.append ((i, j, v, s))
         mon ['entries'] = mon.get ('entries', 0) + 1
         kinds.add (ref [i]['kind'] + '<' + ref [j]['kind'])
         worst = max (worst, dev / 1e-4)
@@ -138,6 +140,29 @@ def check (c):
                               , msg = 'Z[%d,%d] (%s <- %s) = %r, reference %r, deviation %.3g of the term scale (allowed 1e-4)'
                                     % (i + 1, j + 1, ref [i]['kind'], ref [j]['kind'], Z [i, j], v, dev)
                               , measured = dev, allowed = 1e-4))
+    # ---- an object created at another frequency and then set to this one must give the same matrix: created
+    # where every radius is on the other side of the small-radius condition (1e-4 wavelengths) when the model
+    # has thick wires (all thin at creation) or only thin ones (all thick at creation)
+    f0   = m.f
+    rl   = [float (g.r) * f0 / gen.C_MHZ for g in m.geo]
+    if mon.get ('entries') and not viol:
+        if max (rl) > 1e-4:
+            f1 = f0 * 0.5e-4 / max (rl)
+        else:
+            f1 = f0 * 2e-4 / min (rl)
+        m2 = gen.build (dict (spec, f = f1))
+        m2.f = f0
+        common.guarded (m2.compute_impedance_matrix, 'compute_impedance_matrix')
+        Z2 = np.array (m2.Z)
+        for (i, j, v, sc) in refs:
+            dev = abs (Z2 [i, j] - v) / sc
+            mon ['entries.f-set'] = mon.get ('entries.f-set', 0) + 1
+            worst = max (worst, dev / 1e-4)
+            if dev > 1e-4 and len (viol) < 6:
+                viol.append (dict ( monitor = 'entries.f-set', key = 'entry-deviation-after-frequency-change'
+                                  , msg = 'object created at %.6g MHz and set to %.6g MHz: Z[%d,%d] = %r, reference %r, deviation %.3g of the term scale (allowed 1e-4)'
+                                        % (f1, f0, i + 1, j + 1, Z2 [i, j], v, dev)
+                                  , measured = dev, allowed = 1e-4))
     if not mon.get ('entries'):
         return dict (status = 'inconclusive', reason = 'no qualifying pair' if not pairs else 'quadrature self-check failed')
     sig = gen.signature (spec, m, extra = [','.join (sorted (set (r ['kind'] for r in ref)))])
